@@ -483,6 +483,10 @@ func startTagsSpanLines(nodes []Node) bool {
 				return true
 			}
 		}
+		// A templ element with a block is always written on several lines.
+		if tee, isTemplElement := n.(TemplElementExpression); isTemplElement && len(tee.Children) > 0 {
+			return true
+		}
 	}
 	return false
 }
